@@ -314,7 +314,7 @@ def judgeMulti (st : JState) (caseLine : String) (ctoks : List String) (obsS : S
     | some buf, some os =>
       let pairs := List.zip os (os.drop 1)
       let bad := (List.zip (List.range pairs.length) pairs).filter fun (_, (a, b)) => !chkC02chunk a b
-      let badM := (List.zip (List.range os.length) os).filter fun (i, o) => o != chunkObs false (buf.take i)
+      let badM := (List.zip (List.range os.length) os).filter fun (i, o) => !o.st.isP && o != chunkObs false (buf.take i)
       let st := (st.bump "cases.split.chunk").bump "pairs.split" pairs.length
       (st, (bad.map fun (i, (a, b)) => mkFail "C02" true "result changed after appending a byte" caseLine s!"prefix {i}: {a.text} then {b.text}") ++
            (badM.map fun (i, o) => mkFail "C09" false "chunk prefix result differs from model" caseLine s!"prefix {i}: {o.text}"))
@@ -332,7 +332,8 @@ def judgeMulti (st : JState) (caseLine : String) (ctoks : List String) (obsS : S
         let cfg := configOfBits cfgN
         let pairs := List.zip os (os.drop 1)
         let bad := (List.zip (List.range pairs.length) pairs).filter fun (_, (a, b)) => !chkC02 a b
-        let badM := (List.zip (List.range os.length) os).filter fun (i, o) => !sameAsModel k cfg cap (buf.take i) o
+        -- C02 speaks about decided (Complete/Err) results; a Partial that the model does not predict is C11's business
+        let badM := (List.zip (List.range os.length) os).filter fun (i, o) => !o.st.isP && !sameAsModel k cfg cap (buf.take i) o
         let nontriv := (pairs.filter fun (a, _) => !a.st.isP).length
         let st := (((st.bump s!"cases.split.{kind}").bump "pairs.split" pairs.length).bump "pairs.split.nonpartial" nontriv).bump "nontrivial.split"
         let st := st.sample s!"split.{kind}" caseLine
@@ -497,8 +498,19 @@ def judgeLine (st : JState) (l : String) : JState × List String :=
     let otoks := words obsS
     match ctoks with
     | "place" :: _ :: rest => judgeBasic st caseLine rest otoks "place."
-    | "force" :: _ :: rest =>
-      if otoks == ["NA"] then (st.bump "na", []) else judgeBasic st caseLine rest otoks "force."
+    | "force" :: f :: rest =>
+      if otoks == ["NA"] then (st.bump "na", []) else
+      let (st, outs) := judgeBasic st caseLine rest otoks "force."
+      -- which backend ran?  a cached feature must only ever select code that feature licenses:
+      -- SSE42 (2) must not execute 32-byte AVX2 loads, NOP (≥3) no vector loads at all
+      let l16 := kvNat otoks "l16"
+      let l32 := kvNat otoks "l32"
+      let bad := (f == "2" && l32 > 0) || (f != "1" && f != "2" && (l16 > 0 || l32 > 0))
+      let st := if l16 > 0 || l32 > 0 then st.bump "force.vector_loads_seen" else st
+      (st, outs ++ (if bad then
+        [mkFail "C13" true "a cached runtime feature selected a backend that feature does not license" caseLine s!"feature {f}: l16={l16} l32={l32}",
+         mkFail "C01" true "a cached runtime feature selected a backend that feature does not license (UB on such a CPU)" caseLine s!"feature {f}: l16={l16} l32={l32}"]
+        else []))
     | "split" :: _ => judgeMulti st caseLine ctoks obsS
     | "cfgpair" :: _ => judgeMulti st caseLine ctoks obsS
     | "hrel" :: _ => judgeMulti st caseLine ctoks obsS
